@@ -479,6 +479,22 @@ theorem ruleUnfold_sound {red bin : OpK} {vars : List Name} {ts : List (Ex R)} {
   subst hsplit
   exact unfoldAt_sound size hwf (hops a v b rfl) hf env
 
+/-- **The factor list is positional**: `(f ⊕ g) ⊗ (f ⊕ g)` with the two factors the SAME term (interned).
+    The rule as written (`unfoldAt` with `pre = []`, `post = [s]`) keeps the second copy and preserves the
+    value `(f+g)² = 9`; selecting the other factors by an identity test — any test that is reflexive on
+    `s` — drops both copies and returns `f + g = 3` (seeded defect C08_5). -/
+theorem distribute_by_identity_witness :
+    let size : Name → Nat := fun _ => 1
+    let f : Ex Nat := .leaf [] (fun _ => 1)
+    let g : Ex Nat := .leaf [] (fun _ => 2)
+    let s : Ex Nat := .contr .null .add [] [f, g]
+    let t : Ex Nat := .contr .null .mul [] [s, s]
+    ∃ t₁ t₂, unfoldAt .null .mul [] [] s [s] = some t₁
+      ∧ distributeByIdentity (fun _ _ => true) .null .mul [] [s, s] s = some t₂
+      ∧ t.eval (sr Nat) size (fun _ => 0) = 9 ∧ t₁.eval (sr Nat) size (fun _ => 0) = 9
+      ∧ t₂.eval (sr Nat) size (fun _ => 0) = 3 :=
+  ⟨_, _, rfl, rfl, by decide, by decide, by decide⟩
+
 /-- **The freshness hypothesis is necessary** (finding KF-shared-binder-unfold): `f(i) · Σ_i f(i)` with
     the sibling `f(i)` mentioning the operand's binder `i` — what hash-consed operands sharing one
     mangled binder produce.  The rule fires and turns `(Σ_i f)²`-style values into `Σ_i Σ_i f²`. -/
